@@ -107,6 +107,7 @@ package os
 //@   use vpBasic(fs.root)
 //@   ensures "nil" iff(r == nil, err == nil)
 //@   ensures "other" implies(!isPathError(err) && !isType(err, *stdos.LinkError), r == err)
+//@   ensures "inner" implies(isPathError(err), isPathError(r) && opOf(r) == opOf(err) && innerErr(r) == innerErr(err))
 //@   ensures "path" forall(n, string, implies(vpBasic(n) && vpSplit(fs.root, n) && isPathError(err) && VP(n) && pathOf(err) == osPathOf(fs, "linux", '/', n),
 //@                    isPathError(r) && pathOf(r) == n && opOf(r) == opOf(err) && innerErr(r) == innerErr(err)))
 //@   ensures "link" forall(o, string, forall(n, string, implies(vpBasic(n) && vpSplit(fs.root, n) && vpBasic(o) && vpSplit(fs.root, o) && isType(err, *stdos.LinkError) && VP(o) && VP(n) &&
